@@ -232,7 +232,11 @@ def check_setup_histories(seed, n_cases, n_max=4, length=5):
             if op in ("exec", "setup_sel"):
                 hist.append((op, rnd.sample(w.order, rnd.randint(1, min(2, len(w.order))))))
             elif op == "exec_setup_root":
-                hist.append((op, [rnd.choice(roots(w))]))
+                # only roots whose selection is closed under the dependencies of its setup nodes: a root-restricted run
+                # gives None to a node for every input outside the selection (documented meaning of root_nodes), and a
+                # setup result computed that way is legitimately kept - outside this oracle
+                ok_roots = [r for r in roots(w) if all(d in desc_closure(w, [r]) for n_ in desc_closure(w, [r]) if w.nodes[n_].get("setup") for d in w.all_deps(n_) if d in w.nodes)]
+                hist.append((op, [rnd.choice(ok_roots)]) if ok_roots else ("setup", None))
             elif op == "setup_excl":
                 hist.append((op, [rnd.choice(w.order)]))
             else:
